@@ -447,7 +447,7 @@ func specMask64(m [4]byte) uint64 {
 
 //@ func Cipher
 //@   props C02 C15
-//@   requires [off] 0 <= offset && offset <= 1<<62
+//@   requires [off] 0 <= offset
 //@   ensures  [xor] forall(0, len(payload), func(k int) bool { return payload[k] == old(payload[k])^mask[VMaskIdx(offset, k)] })
 //@   assigns bytes(payload)
 //@   loop 1 invariant [b] 0 <= i && i <= n && n == len(payload) && n < 8
